@@ -62,7 +62,7 @@ def build(tier, seed):
         body=("\n    empty = %r" % emptyv) + r'''
     unit = pick(UNITS, u)
     n = concrete_int(num, -3, 14)
-    size = pick([0.5, 4, 9, 9.5, 12, 48], z)
+    size = pick([0.5, 4.2, 9, 9.5, 11.3, 48], z)
     text = "" if empty else "abc"
     fresh_module()
     st_n, val_n = measure(n, size, unit, text)
@@ -75,7 +75,7 @@ def build(tier, seed):
         funcs=["rtflite.strwidth:get_string_width", "rtflite.fonts_mapping:FontMapping.get_font_paths",
                "rtflite.fonts_mapping:FontMapping.get_font_number_to_name_mapping"],
         stubs=["Pillow -> fonts whose measured length identifies the (font file, size, text) used"],
-        bounds="font number -3..14 and the name mapped to it, unit in {in,mm,px,cm,'',IN}, size in {0.5, 4, 9, 9.5, 12, 48}, text 'abc' or empty",
+        bounds="font number -3..14 and the name mapped to it, unit in {in,mm,px,cm,'',IN}, size in {0.5, 4.2, 9, 9.5, 11.3, 48}, text 'abc' or empty",
         what="a font given by number or by its name measures the text with the font file mapped to it at exactly the requested size and "
              "returns the same value (0 for the empty text); an unsupported font number or unit raises ValueError, also for the empty text"))
     obs.append(Ob(
@@ -90,7 +90,7 @@ def build(tier, seed):
         oid="O3.history_independent", sig="f1: int, f2: int, z1: int, z2: int, same_text: bool",
         pre=["0 <= f1 <= 2 and 0 <= f2 <= 2", "0 <= z1 <= 3 and 0 <= z2 <= 3"], header=HDR20, timeout=T,
         body=r'''
-    sizes = [9, 9.5, 10, 10.5]
+    sizes = [9, 9.2, 10, 10.5]
     a, b = pick([1, 4, 9], f1), pick([1, 4, 9], f2)
     s1, s2 = pick(sizes, z1), pick(sizes, z2)
     unit = "px"
@@ -101,7 +101,7 @@ def build(tier, seed):
 ''',
         funcs=["rtflite.strwidth:get_string_width"],
         stubs=["Pillow -> fonts whose measured length identifies the (font file, size, text) used"],
-        bounds="one earlier measurement (font 1, 4 or 9 - three different font files; size in {9, 9.5, 10, 10.5}) followed by the measurement "
+        bounds="one earlier measurement (font 1, 4 or 9 - three different font files; size in {9, 9.2, 10, 10.5}) followed by the measurement "
                "under test (any of those fonts and sizes, same or other text)",
         what="a measurement uses the font file and the exact size it was asked for, whatever was measured before (no lossy memoisation)"))
     # O4: what is measured is the text that was given
